@@ -496,6 +496,54 @@ Proof.
   subst f x0 beh. rewrite Hcall. discriminate.
 Qed.
 
+(* ... whose last datagram does NOT suppress the class of the handler's code (small response body): the response is
+   handed on -- code, token, body -- whatever No-Response option the FIRST block carried *)
+Theorem upload_passed : forall c b tok code szx o0 p0 mids ol pl rc ro p,
+  (code =? POST) || (code =? PUT) = true -> 0 <= szx <= c_szx c -> c_szx c <= 7 ->
+  tget (rcvc b) tok = None ->
+  block1_is o0 szx 0 true -> blen p0 = size szx ->
+  mids_ok szx 1 mids ->
+  block1_is ol szx (1 + blen mids) false ->
+  rw_refuses ol rc = false -> blen p < size szx ->
+  let beh := BResp rc ro p in
+  let x0 := bw_handle c b tok code o0 p0 beh in
+  let f := feed c (b_bw x0) tok code mids beh in
+  let r := bw_handle c (fst f) tok code ol pl beh in
+  exists h, b_res r = Some h /\ h_code h = rc /\ h_tok h = tok /\ h_pay h = p.
+Proof.
+  intros c b tok code szx o0 p0 mids ol pl rc ro p Hc Hs H7 Hn Hb0 Hp0 Hmid Hbl Hr Hp beh x0 f r. subst x0 f r.
+  destruct (upload_reassembles c b tok code beh szx o0 p0 mids ol pl Hc Hs H7 Hn Hb0 Hp0 Hmid Hbl) as [_ [_ [_ [_ [_ Hsome]]]]].
+  eexists. split; [apply Hsome; [apply call_passed; exact Hr|exact Hp]|].
+  cbn [h_code h_tok h_pay]. repeat split.
+Qed.
+
+(* the response of an upload belongs to the request that carries the LAST block: the refusal the handler meets is
+   the writer decision on the last datagram's options for every first block -- in particular for every No-Response
+   option the first block (whose options the handler is shown) may carry *)
+Theorem upload_final_request_decides : forall c b tok code szx o0 o0' p0 mids ol pl rc ro p,
+  (code =? POST) || (code =? PUT) = true -> 0 <= szx <= c_szx c -> c_szx c <= 7 ->
+  tget (rcvc b) tok = None ->
+  block1_is o0 szx 0 true -> block1_is o0' szx 0 true -> blen p0 = size szx ->
+  mids_ok szx 1 mids ->
+  block1_is ol szx (1 + blen mids) false ->
+  blen p < size szx ->
+  let beh := BResp rc ro p in
+  let run := fun o => bw_handle c (fst (feed c (b_bw (bw_handle c b tok code o p0 beh)) tok code mids beh)) tok code ol pl beh in
+  b_res (run o0) = b_res (run o0') /\
+  (b_res (run o0) = None <-> rw_refuses ol rc = true).
+Proof.
+  intros c b tok code szx o0 o0' p0 mids ol pl rc ro p Hc Hs H7 Hn Hb0 Hb0' Hp0 Hmid Hbl Hp beh run. subst run. cbn beta.
+  destruct (rw_refuses ol rc) eqn:Hr.
+  - destruct (upload_suppressed c b tok code szx o0 p0 mids ol pl rc ro p Hc Hs H7 Hn Hb0 Hp0 Hmid Hbl Hr) as [_ E1].
+    destruct (upload_suppressed c b tok code szx o0' p0 mids ol pl rc ro p Hc Hs H7 Hn Hb0' Hp0 Hmid Hbl Hr) as [_ E2].
+    cbn zeta in E1, E2. fold beh in E1, E2. rewrite E1, E2. split; [reflexivity|split; reflexivity].
+  - pose proof (upload_reassembles c b tok code beh szx o0 p0 mids ol pl Hc Hs H7 Hn Hb0 Hp0 Hmid Hbl) as [_ [_ [_ [_ [_ S1]]]]].
+    pose proof (upload_reassembles c b tok code beh szx o0' p0 mids ol pl Hc Hs H7 Hn Hb0' Hp0 Hmid Hbl) as [_ [_ [_ [_ [_ S2]]]]].
+    cbn zeta in S1, S2.
+    rewrite (S1 _ (call_passed tok ol rc ro p Hr) Hp), (S2 _ (call_passed tok ol rc ro p Hr) Hp).
+    split; [reflexivity|split; discriminate].
+Qed.
+
 (* ---------- Block2 downloads ---------- *)
 
 Lemma decode_start0 : forall szx, 0 <= szx <= 7 ->
